@@ -304,12 +304,12 @@ def live_start(P):
         for s_ in stmts:
             if s_[0] == "assign":
                 reads = set().union(*[pvars(e) for _, e in s_[2]]) | cvars(s_[3])
-                if s_[3] != ("true",):
-                    reads.add(s_[4])
+                if s_[3] != ("true",) and s_[4] != s_[1]:
+                    reads.add(s_[4])      # the default is read when the condition is false (keeping itself is no read)
                 live.update(reads - assigned)
                 assigned = assigned | {s_[1]}
             elif s_[0] == "draw":
-                reads = cvars(s_[3]) | ({s_[4]} if s_[3] != ("true",) else set())
+                reads = cvars(s_[3]) | ({s_[4]} if s_[3] != ("true",) and s_[4] != s_[1] else set())
                 live.update(reads - assigned)
                 assigned = assigned | {s_[1]}
             elif s_[0] == "simul":
